@@ -14,8 +14,15 @@ EXTENDS GenProg, Grammars
 
 CONSTANTS Which, MaxSize
 
-G == CASE Which = "c01" -> C01G [] Which = "c03" -> C03G [] Which = "c12" -> C12GM
+\* "cx": programs that end their own context part-way (the probe cancel!); what they compute is left to the code
+\* (the definition layer abstains: cancellation is C07's subject), but it is the same with and without a stepper
+CXG == Grammar(<<"1", "x", "(cancel!)", "(trace! 2)">>,
+               <<"(list _1 1)", "(list 0 _1 x (trace! 3))", "(do _1 1)", "(if _1 1 2)", "[_1 1]", "(let [a _1] a 1)",
+                 "(try _1 (catch e (trace! :c) 1))", "((fn [a b] b) _1 1)">>,
+               <<"(list _1 _2)", "(do _1 _2)", "(let [a _1] _2)">>, <<>>)
+G == CASE Which = "c01" -> C01G [] Which = "c03" -> C03G [] Which = "c12" -> C12GM [] Which = "cx" -> CXG
 CtxForms == CASE Which = "c01" -> C01CtxForms [] Which = "c03" -> C03CtxForms [] Which = "c12" -> C12CtxForms
+              [] Which = "cx" -> C01CtxForms
 
 ASSUME InitRegisters
 ASSUME SetContext(CtxForms)
